@@ -4,7 +4,9 @@ import IdenaModel.Drivers.Util
 (`Load`, `UpdateFromIdentityStateDiff`, every getter) answers the op lines the Go harness executed on the real code.
 
 Addresses are decimal naturals (the harness embeds `n` big-endian into the first four bytes of a 20-byte address, so
-byte order = numeric order).  Two caches live side by side: `inc` (maintained incrementally) and `fresh` (rebuilt).
+byte order = numeric order; channel C10H uses the first four bytes of real addresses).  Two caches live side by side:
+`inc` (maintained incrementally) and `fresh` (rebuilt).  Channel C10H replays the stored identity diffs of a real chain
+through `adddiff` / `upd inc` / `load fresh` and asks the same queries of the node's own cache.
 
     new                                   reset everything
     w val|onl|dis <a> <0|1>               SetValidated / SetOnline / SetDiscriminated
@@ -14,6 +16,7 @@ byte order = numeric order).  Two caches live side by side: `inc` (maintained in
     adddiff <item,...>|-                  AddDiff + CommitTree with the given diff (item = a:D | a:<flags>:<deleg|->)
     tree                                  IterateIdentities dump
     load inc|fresh      upd inc           Load / UpdateFromIdentityStateDiff(last diff)
+    clone inc                             inc := inc.Clone() (no effect in the model: a clone is indistinguishable)
     q inc|fresh sizes|sorted|a <x>|pool <x>|sub <p> <nonce>|pse <p> <x,..>|com <god> <limit> <perm,..>
 -/
 namespace IdenaModel.Drv.C10
